@@ -16,6 +16,10 @@ package main
 // C08/alloc/rules-on/oversized-mediatype). The witnesses are pinned (c08PinnedWitnesses) and run in every
 // tier; should they violate again, the run switches to a budgeted mode (see runC08).
 //
+// Sequences (stage (g), c08Sequences): one large chunked array then thousands of tiny long-form arrays in ONE
+// document (shared reader buffer / validator buffer): absolute bound and growth of the per-byte allocation when
+// both halves grow; the CTE counterpart is the "sequence" group of stage (f).
+//
 // CTE (stage (f), c08CteAlloc): allocation of one decode against a stated bound with a larger constant and
 // against growth of the per-byte allocation inside a family; string-like values with escapes are compared
 // with CE.Model.Cost.cte_string (CteStrRun).
@@ -705,7 +709,7 @@ type c08Item struct {
 }
 
 func runC08(c *Ctx) {
-	c.Rep.Rule = "CBE documents decoded one per measurement in a child process under an address-space cap, rules on/off x MaxArraySizeBytes in {4 KiB, 1 MiB, 16 MiB, 1 GiB default}: (a) encoder outputs of generated rules-valid streams and byte mutations of them, (b) an oversized announced length in every kind of length field (array chunk headers of every array type, second chunk, media type, media data, identifiers, integer length) x sizes around the limit and around 2^16..2^63 x structural positions (top, list, map key/value, depth 40, after an array, marked), (c) honest large members (lengths satisfied), (d) nested-container runs and many-tiny-token families with a doubling experiment for CPU time, (e) CTE time families measured only (time slope), (f) CTE allocation of one decode (rules on, MaxArraySizeBytes 1 MiB) held to 2048*len + 2*MaxArraySizeBytes + 4 MiB and to 'the largest member allocates at most twice as much per document byte as the 2 KiB member': families of documents dominated by one long value at 2..32 KiB (thorough: ..64 KiB): every string-like kind (string, resource ID, remote reference, custom text, media text) x every escape form of the grammar (each escape character, code point escapes of 1-4 UTF-8 bytes / invalid / leading zeros, continuations, verbatim sequences, a mix, none) x distance between escapes 0..48 characters x position (top level, list, map value, after other values, marked, after comments), typed arrays of every element type and radix, custom / media binary, comments, long numbers, many tiny tokens of every kind, nesting; top-level string-likes are compared with the model's accumulation of the value (CteStrRun: error, events, value length exact; TotalAlloc bracketed). Non-trivial = the document announces more than it carries, or is at least 1 KiB; distinct = distinct (configuration, document)"
+	c.Rep.Rule = "CBE documents decoded one per measurement in a child process under an address-space cap, rules on/off x MaxArraySizeBytes in {4 KiB, 1 MiB, 16 MiB, 1 GiB default}: (a) encoder outputs of generated rules-valid streams and byte mutations of them, (b) an oversized announced length in every kind of length field (array chunk headers of every array type, second chunk, media type, media data, identifiers, integer length) x sizes around the limit and around 2^16..2^63 x structural positions (top, list, map key/value, depth 40, after an array, marked), (c) honest large members (lengths satisfied), (d) nested-container runs and many-tiny-token families with a doubling experiment for CPU time, (e) CTE time families measured only (time slope), (f) CTE allocation of one decode (rules on, MaxArraySizeBytes 1 MiB) held to 2048*len + 2*MaxArraySizeBytes + 4 MiB and to 'the largest member allocates at most twice as much per document byte as the 2 KiB member': families of documents dominated by one long value at 2..32 KiB (thorough: ..64 KiB): every string-like kind (string, resource ID, remote reference, custom text, media text) x every escape form of the grammar (each escape character, code point escapes of 1-4 UTF-8 bytes / invalid / leading zeros, continuations, verbatim sequences, a mix, none) x distance between escapes 0..48 characters x position (top level, list, map value, after other values, marked, after comments), typed arrays of every element type and radix, custom / media binary, comments, long numbers, many tiny tokens of every kind, nesting; top-level string-likes are compared with the model's accumulation of the value (CteStrRun: error, events, value length exact; TotalAlloc bracketed)., plus sequences (one large value of kind A, then a run of tiny values of kind B, both halves growing together), (g) CBE sequences inside one document: a large long-form array of kind A in chunks of 16 bytes..1 MiB (every array type, custom, media data, or one large media type) followed by 250..4000 tiny long-form arrays of kind B, rules on/off, MaxArraySizeBytes 1 MiB, members 16 KiB+250, 64 KiB+1000, 256 KiB+4000: absolute bound and per-byte allocation of the largest member at most twice that of the smallest; smallest members compared with the model (CostRun). Non-trivial = the document announces more than it carries, or is at least 1 KiB; distinct = distinct (configuration, document)"
 	cf := c.Cases("cost", "CE.Model.Cost", "cost_case", "cost_case_ok")
 	cf.perFile = 250
 	t0 := time.Now()
@@ -1026,6 +1030,11 @@ func runC08(c *Ctx) {
 
 	// cbe.Reader alone
 	c08ReaderCases(c, cf)
+
+	// (g) sequences: one large array, then many tiny ones
+	tS := time.Now()
+	c08Sequences(c)
+	c.Rep.Extra["seq_stage_s"] = time.Since(tS).Seconds()
 
 	// (d) + (e) time: doubling experiments
 	tT := time.Now()
@@ -1370,6 +1379,196 @@ func c08TimeExperiments(c *Ctx) {
 }
 
 // ---------------------------------------------------------------------------
+// (g) CBE sequences inside ONE document: a large array of kind A (long form, in chunks) followed by many tiny
+// long-form arrays of kind B, through decoder (-> rules). The arrays share the reader's buffer and, with a
+// validator, Context.builtArrayBuffer / the chunk accounting: whatever the first array made them grow to must not
+// be paid again by every later array. Either half alone is linear; the product (largest earlier array) x (number
+// of later arrays) is what the bound excludes. Members scale both halves together (k = 1, 4, 16: 16k KiB + 250k
+// tiny arrays), judged against the absolute bound (c08Bound, MaxArraySizeBytes 1 MiB) and against growth of the
+// allocation per document byte between the smallest and the largest member (at most twice).
+
+type c08Arr struct {
+	name    string
+	typ     []byte // type code(s) (and custom type / media type) before the first chunk header
+	bits    uint64
+	strlike bool // accumulated by the validator (builtArrayBuffer)
+	group   string
+}
+
+func c08ArrKinds() []c08Arr {
+	out := []c08Arr{}
+	for _, f := range c08Fields() {
+		if !f.array || !strings.HasPrefix(f.name, "chunk/") {
+			continue
+		}
+		h := f.head(0)
+		a := c08Arr{name: strings.TrimPrefix(f.name, "chunk/"), typ: h[:len(h)-1], bits: f.bits, group: "typed"}
+		switch a.name {
+		case "string", "rid", "remote", "referenceremote", "resourceid":
+			a.strlike, a.group = true, "stringlike"
+		case "custom", "mediadata":
+			a.group = "binary"
+		}
+		out = append(out, a)
+	}
+	return out
+}
+
+// long form of an array with nbytes of data (a multiple of the element size), in chunks of chunkBytes
+func (a c08Arr) encode(nbytes, chunkBytes int) []byte {
+	elems := func(nb int) uint64 { return uint64(nb) * 8 / a.bits }
+	out := append([]byte{}, a.typ...)
+	for nbytes > chunkBytes {
+		out = append(out, c08ChunkHeader(elems(chunkBytes), true)...)
+		out = append(out, bytes.Repeat([]byte{'a'}, chunkBytes)...)
+		nbytes -= chunkBytes
+	}
+	out = append(out, c08ChunkHeader(elems(nbytes), false)...)
+	return append(out, bytes.Repeat([]byte{'a'}, nbytes)...)
+}
+
+// the same bytes as a compact Coq term (lrep / nrep of CE.Model.Cost): long list literals overflow coqc's parser
+func (a c08Arr) encodeTerm(nbytes, chunkBytes int) string {
+	elems := func(nb int) uint64 { return uint64(nb) * 8 / a.bits }
+	parts := []string{cBytes(a.typ)}
+	if full := (nbytes - 1) / chunkBytes; full > 0 {
+		parts = append(parts, fmt.Sprintf("lrep (%s ++ nrep 97 %d) %d", cBytes(c08ChunkHeader(elems(chunkBytes), true)), chunkBytes, full))
+		nbytes -= full * chunkBytes
+	}
+	parts = append(parts, cBytes(c08ChunkHeader(elems(nbytes), false)), fmt.Sprintf("nrep 97 %d", nbytes))
+	return strings.Join(parts, " ++ ")
+}
+
+func (a c08Arr) tiny() []byte {
+	nb := int(a.bits / 8)
+	if nb == 0 {
+		nb = 1
+	}
+	return a.encode(nb, nb)
+}
+
+type c08SeqFam struct {
+	a, b  c08Arr
+	rules bool
+	chunk int
+	big   func(nbytes int) []byte
+	name  string
+}
+
+func c08SeqJob(f c08SeqFam, k int) c08Job {
+	return c08Job{Format: "cbe", Rules: f.rules, MaxArray: 1 << 20, Reps: 1,
+		Prefix: cat([]byte{0x81, 0, 0x9a}, f.big(k*16<<10)), Unit: f.b.tiny(), Count: 250 * k, Suffix: []byte{0x9b}}
+}
+
+const c08SeqExpectGrowth = "allocation per document byte does not grow when both halves of the sequence grow: the largest member needs at most twice the per-byte allocation of the smallest (checked when it allocates at least one byte per document byte)"
+
+func c08Sequences(c *Ctx) {
+	cf := c.Cases("seqcost", "CE.Model.Cost", "cost_case", "cost_case_ok")
+	cf.perFile = 8
+	kinds := c08ArrKinds()
+	fams := []c08SeqFam{}
+	chunkSizes := []int{16, 64, 256, 1024, 4096, 1 << 20}
+	for _, a := range kinds {
+		for _, b := range kinds {
+			// quick: every pair in which a validator-accumulated kind takes part, a sample of the others
+			if !c.Thorough() && !a.strlike && !b.strlike && c.Rng.Intn(8) != 0 {
+				continue
+			}
+			for _, rules := range []bool{true, false} {
+				if !rules && !c.Thorough() && c.Rng.Intn(4) != 0 {
+					continue // without a validator only the reader's buffer is shared
+				}
+				a, b := a, b
+				ch := chunkSizes[c.Rng.Intn(len(chunkSizes))]
+				fams = append(fams, c08SeqFam{a: a, b: b, rules: rules, chunk: ch, name: fmt.Sprintf("%s(chunks of %d)-then-%s/rules=%v", a.name, ch, b.name, rules),
+					big: func(n int) []byte { return a.encode(n, ch) }})
+			}
+		}
+	}
+	// a large MEDIA TYPE (one length-prefixed string, handed over whole) followed by tiny arrays
+	for _, b := range kinds {
+		if !c.Thorough() && c.Rng.Intn(3) != 0 {
+			continue
+		}
+		b := b
+		mt := c08Arr{name: "mediatype", group: "mediatype"}
+		fams = append(fams, c08SeqFam{a: mt, b: b, rules: true, name: "mediatype-then-" + b.name + "/rules=true",
+			big: func(n int) []byte {
+				return cat([]byte{0x7f, 0xf3}, c08Uleb(uint64(n)), []byte("a/"), bytes.Repeat([]byte{'b'}, n-2), []byte{0})
+			}})
+	}
+	ks := []int{1, 4, 16}
+	jobs := []c08Job{}
+	for _, f := range fams {
+		for _, k := range ks {
+			jobs = append(jobs, c08SeqJob(f, k))
+		}
+	}
+	rs := c08Parallel(jobs, c08CapSmall, 120*time.Second, 10)
+	maxRatio, maxGrowth := 0.0, 0.0
+	for fi, f := range fams {
+		rl := "off"
+		if f.rules {
+			rl = "on"
+		}
+		key := fmt.Sprintf("rules-%s/%s-then-%s", rl, f.a.group, f.b.group)
+		for ki, k := range ks {
+			j, r := jobs[fi*len(ks)+ki], rs[fi*len(ks)+ki]
+			c.Count(fmt.Sprintf("seq/%s/%d", f.name, k), true)
+			c.Dist("alloc-seq/" + key)
+			outc := "ok"
+			if r.Killed {
+				outc = "process-died"
+			} else if r.Err {
+				outc = "error"
+			}
+			c.Dist("alloc-seq/outcome=" + outc)
+			ok, detail := c08Verdict(j, r, c08CapSmall)
+			if !r.Killed {
+				if q := float64(r.Alloc) / float64(c08Bound(j)); q > maxRatio {
+					maxRatio = q
+				}
+			}
+			in := map[string]string{"family": f.name, "rules": fmt.Sprint(j.Rules), "max_array": fmt.Sprint(j.MaxArray), "prefix_hex": hex.EncodeToString(j.Prefix),
+				"unit_hex": hex.EncodeToString(j.Unit), "count": fmt.Sprint(j.Count), "suffix_hex": hex.EncodeToString(j.Suffix)}
+			if !ok {
+				c.Fail(Replay{Kind: "alloc-seq", Key: "C08/alloc-seq/bound/" + key, Input: in,
+					Expect: fmt.Sprintf("at most %d*len + 2*MaxArraySizeBytes + %d = %d bytes allocated", c08K, c08C0, c08Bound(j)), Got: detail})
+			}
+			if ki == len(ks)-1 {
+				j0, r0 := jobs[fi*len(ks)], rs[fi*len(ks)]
+				if !r.Killed && !r0.Killed && !r.Err && !r0.Err {
+					p0 := float64(r0.Alloc) / float64(j0.docLen())
+					p1 := float64(r.Alloc) / float64(j.docLen())
+					if g := p1 / p0; g > maxGrowth {
+						maxGrowth = g
+					}
+					// a decode that allocates less than one byte per document byte (rules off: a few dozen bytes in
+					// all) has no growth to speak of; the ratio of two such numbers is noise
+					if p1 > 2*p0 && p1 >= 1.0 {
+						in["ref_prefix_hex"], in["ref_count"] = hex.EncodeToString(j0.Prefix), fmt.Sprint(j0.Count)
+						c.Fail(Replay{Kind: "alloc-seq", Key: "C08/alloc-seq/growth/" + key, Input: in, Expect: c08SeqExpectGrowth,
+							Got: fmt.Sprintf("%d-byte member: %d bytes allocated = %.1f per byte; %d-byte member: %d = %.1f per byte", j0.docLen(), r0.Alloc, p0, j.docLen(), r.Alloc, p1)})
+					}
+				}
+			}
+			// correspondence with the cost model: the smallest member (the model walks a document byte by byte: seconds per
+			// 100 KB) of every pair of validator-accumulated kinds and of a sample of the others
+			if k == 1 && !r.Killed && f.a.group != "mediatype" && ((f.a.strlike && f.b.strlike) || fi%c.Pick(6, 2) == 0) {
+				doc := j.doc()
+				term := fmt.Sprintf("(%s ++ %s ++ lrep %s %d ++ %s)", cBytes([]byte{0x81, 0, 0x9a}), f.a.encodeTerm(k*16<<10, f.chunk), cBytes(j.Unit), j.Count, cBytes(j.Suffix))
+				cf.Add(cApp("CostRun", c08CfgTerm(j), c08Stop(j, r, false), term, cBool(r.Err), cN(r.Buf), cN(r.Nread), cN(r.Nev), cN(r.Alloc)),
+					fmt.Sprintf("sequence %s k=%d (%d bytes) -> err=%v buf=%d nread=%d nev=%d alloc=%d", f.name, k, len(doc), r.Err, r.Buf, r.Nread, r.Nev, r.Alloc))
+				c.Dist("alloc-seq/compared-with-model")
+			}
+		}
+	}
+	c.Rep.Extra["seq_families"] = len(fams)
+	c.Rep.Extra["seq_max_alloc_over_bound"] = maxRatio
+	c.Rep.Extra["seq_max_growth_of_per_byte"] = maxGrowth
+}
+
+// ---------------------------------------------------------------------------
 // (f) CTE: allocation of ONE decode. The CTE decoder is held to the same kind of bound as the CBE decoder,
 //     alloc <= c08KCte*len + 2*MaxArraySizeBytes + c08C0Cte
 // with a larger (stated) constant: the ANTLR front end keeps a token and a parse-tree node per character (about
@@ -1399,6 +1598,9 @@ type c08CteFam struct {
 	closer   []byte
 	maxUnits int // > 0: no member has more units than this
 	maxLen   int // > 0: no member is longer than this many bytes
+	// sequence families: the document is prefix + bigOpen + bigUnit*m + bigClose + " " + unit*n + suffix, the large value
+	// as long (in bytes) as the run of tiny ones, so that both halves grow together from member to member
+	bigOpen, bigUnit, bigClose []byte
 }
 
 var c08CteStrKinds = []struct{ name, open string }{
@@ -1561,6 +1763,29 @@ func c08CteFamilies(c *Ctx) []c08CteFam {
 	add("tokens", "references", "[&m:\"marked\" ", "$m ", "]")
 	add("tokens", "records", "@r<a b c>\n[", "@r{1 2 3} ", "]")
 	add("tokens", "white-space", "[", "  \n\t ", "1]")
+	// sequences: one large value of kind A, then many tiny values of kind B, in one list (the listener's arrayData and
+	// the validator's buffers are shared by all of them); both halves grow together (see c08CteJob)
+	{
+		bigs := []struct{ name, open, unit, close string }{
+			{"string", `"`, "abcdefg\\n", `"`}, {"rid", `@"`, "abcdefgh", `"`}, {"remote-ref", `$"`, "abc\\[e9]", `"`}, {"custom-text", `@7"`, "abcdefgh", `"`},
+			{"media-text", `@a/b"`, "abcd\\tef", `"`}, {"u8x", "@u8x[", "ab ", "]"}, {"u16", "@u16[", "4660 ", "]"}, {"f64", "@f64[", "1.5 ", "]"},
+			{"bit", "@b[", "10110011", "]"}, {"uid", "@uid[", "01234567-89ab-cdef-0123-456789abcdef ", "]"}, {"custom-binary", "@7[00", " ab", "]"}, {"media-binary", "@a/b[00", " ab", "]"},
+		}
+		tinies := []struct{ name, src string }{
+			{"string", `"a" `}, {"escaped-string", `"\\n" `}, {"rid", `@"a" `}, {"remote-ref", `$"a" `}, {"custom-text", `@7"a" `}, {"media-text", `@a/b"a" `},
+			{"u8x", "@u8x[01] "}, {"i32", "@i32[-1] "}, {"f32", "@f32[1.5] "}, {"bit", "@b[1] "}, {"uid", "@uid[01234567-89ab-cdef-0123-456789abcdef] "},
+			{"custom-binary", "@7[01] "}, {"media-binary", "@a/b[01] "},
+		}
+		for _, a := range bigs {
+			for _, b := range tinies {
+				if !c.Thorough() && c.Rng.Intn(12) != 0 {
+					continue
+				}
+				add("sequence", a.name+"-then-"+b.name, "[", b.src, "]")
+				fs[len(fs)-1].bigOpen, fs[len(fs)-1].bigUnit, fs[len(fs)-1].bigClose = []byte(a.open), []byte(a.unit), []byte(a.close)
+			}
+		}
+	}
 	// nesting: the recursive-descent parser limits the depth (a few thousand levels), so these families stay small
 	nest := func(shape, unit, inner, closer string) {
 		fs = append(fs, c08CteFam{name: "nesting/" + shape, group: "nesting", prefix: []byte("c0\n"), unit: []byte(unit), inner: []byte(inner), closer: []byte(closer), maxUnits: 2048})
@@ -1583,6 +1808,9 @@ func c08CteJob(f c08CteFam, units int) c08Job {
 		j.Prefix, j.Unit, j.Count = b, nil, 0
 	case f.closer != nil:
 		j.Suffix = cat(f.inner, bytes.Repeat(f.closer, units))
+	case f.bigUnit != nil:
+		m := units * len(f.unit) / len(f.bigUnit)
+		j.Prefix = cat(f.prefix, f.bigOpen, bytes.Repeat(f.bigUnit, m), f.bigClose, []byte(" "))
 	}
 	return j
 }
@@ -1796,6 +2024,25 @@ func replayC08(r *Replay) (bool, string) {
 		j := c08Job{Format: "cbe", Rules: r.Input["rules"] == "true", MaxArray: ma, Prefix: doc, Reps: 1}
 		res := c08RunChild([]c08Job{j}, capv, 60*time.Second)[0]
 		return c08Verdict(j, res, capv)
+	case "alloc-seq":
+		unhex := func(k string) []byte { b, _ := hex.DecodeString(r.Input[k]); return b }
+		ma, _ := strconv.ParseUint(r.Input["max_array"], 10, 64)
+		n, _ := strconv.Atoi(r.Input["count"])
+		j := c08Job{Format: "cbe", Rules: r.Input["rules"] == "true", MaxArray: ma, Prefix: unhex("prefix_hex"), Unit: unhex("unit_hex"), Count: n, Suffix: unhex("suffix_hex"), Reps: 1}
+		res := c08RunChild([]c08Job{j}, c08CapSmall, 300*time.Second)[0]
+		ok, detail := c08Verdict(j, res, c08CapSmall)
+		if _, growth := r.Input["ref_count"]; growth && ok && !res.Killed {
+			j0 := j
+			j0.Prefix = unhex("ref_prefix_hex")
+			j0.Count, _ = strconv.Atoi(r.Input["ref_count"])
+			r0 := c08RunChild([]c08Job{j0}, c08CapSmall, 300*time.Second)[0]
+			if r0.Killed || j0.docLen() == 0 {
+				return false, "reference member did not return"
+			}
+			p0, p1 := float64(r0.Alloc)/float64(j0.docLen()), float64(res.Alloc)/float64(j.docLen())
+			return p1 <= 2*p0, fmt.Sprintf("%d-byte member: %.1f bytes allocated per byte; %d-byte member: %.1f", j0.docLen(), p0, j.docLen(), p1)
+		}
+		return ok, detail
 	case "cte-alloc":
 		unhex := func(k string) []byte { b, _ := hex.DecodeString(r.Input[k]); return b }
 		ma, _ := strconv.ParseUint(r.Input["max_array"], 10, 64)
